@@ -340,6 +340,12 @@ func extractRegistry(l *Loaded) (*Registry, error) {
 					}
 					tv := reflect.StructTag(raw).Get("ttlv")
 					for _, part := range strings.Split(tv, ",") {
+						if part == "set-version" {
+							// the header field whose value becomes the version of the message being encoded / decoded
+							for _, nm := range fld.Names {
+								reg.Versions = append(reg.Versions, VersionField{Struct: p.Name + "." + ts.Name.Name, Field: nm.Name, Range: "set-version"})
+							}
+						}
 						if strings.HasPrefix(part, "version=") {
 							for _, nm := range fld.Names {
 								reg.Versions = append(reg.Versions, VersionField{Struct: p.Name + "." + ts.Name.Name, Field: nm.Name, Range: strings.TrimPrefix(part, "version=")})
@@ -646,7 +652,7 @@ func init() {
 			for _, v := range reg.Versions {
 				k := v.Struct + "." + v.Field
 				r, ok := pv[k]
-				obs = append(obs, tableOb{"C05#table:" + k, ok && r == v.Range && versionRangeWF(v.Range), fmt.Sprintf("%s has version=%s (pinned %q, present=%v)", k, v.Range, r, ok)})
+				obs = append(obs, tableOb{"C05#table:" + k, ok && r == v.Range && (v.Range == "set-version" || versionRangeWF(v.Range)), fmt.Sprintf("%s has version=%s (pinned %q, present=%v)", k, v.Range, r, ok)})
 				delete(pv, k)
 			}
 			for k, r := range pv {
